@@ -65,6 +65,10 @@ fn queue_alphabet() -> Vec<Value> {
     a.push(json!({"op":"pop"}));
     for id in [1u64, 2] { a.push(json!({"op":"remove","id":id})); }
     a.push(json!({"op":"find","id":1}));
+    // queues built from a list whose timestamps are not monotone in list order
+    let l = json!([{"type":"Standard","id":1,"price":100,"vis":5,"side":"Sell","ts":5},{"type":"Standard","id":2,"price":100,"vis":5,"side":"Sell","ts":1},{"type":"Standard","id":3,"price":100,"vis":5,"side":"Sell","ts":3}]);
+    a.push(json!({"op":"build","orders":l.clone(),"via":"from"}));
+    a.push(json!({"op":"build","orders":l,"via":"from_vec"}));
     a
 }
 
@@ -77,6 +81,7 @@ fn materialize_queue(seq: &[usize], alpha: &[Value]) -> Option<Vec<Value>> {
         let op = alpha[i].clone();
         match op["op"].as_str().unwrap() {
             "push" => { let id = op["order"]["id"].as_u64().unwrap(); if queued.contains(&id) { return None; } queued.push(id); fifo.push_back(id); }
+            "build" => { queued = vec![1, 2, 3]; fifo = [1u64, 2, 3].into_iter().collect(); }
             "remove" => { let id = op["id"].as_u64().unwrap(); queued.retain(|x| *x != id); }
             "pop" => { // which id leaves is decided by the implementation; keep the over-approximation simple: forget all
                        // ids that could have left so that a later push of the same id is only generated after a removal
